@@ -28,6 +28,21 @@ def workloads(rng, shapes, tier):
                 ops.append("W")
         ops.append("W")
         ws.append(Fm.Workload(sh, rng.randrange(3), rng.choice((7, 9, 1000)), ops, "many-records"))
+    # run-structured: N identical records then a different one, so that the level streams hold runs of exactly N
+    # equal levels (8-value, 63/64-group and multi-byte-header boundaries of the RLE/bit-packed hybrid encoder)
+    ns = [7, 8, 9, 63, 64, 65, 127, 128, 129, 504, 505, 512, 513]
+    if tier == "quick":
+        ns = [8, 63, 64, 65, 128, 505, 512]
+    for sh in shapes:
+        if sh.name not in ("opt3", "boolopt"):
+            continue
+        full = S.gen_value(rng, sh.model_fields(), maxlist=2, pnull=0.0, extreme=0.3)
+        empty = S.gen_value(rng, sh.model_fields(), maxlist=0, pnull=1.0, extreme=0.3)
+        alt = [full, empty]
+        for n in ns:
+            for mx in (1000, n):
+                ws.append(Fm.Workload(sh, rng.randrange(3), mx, [full] * n + [empty, "W"], "run-of-%d" % n if n in (64, 505) else "run-structured"))
+            ws.append(Fm.Workload(sh, rng.randrange(3), 1000, [alt[i % 2] for i in range(n + 1)] + [full] * 9 + ["W"], "alternating"))
     return ws
 
 
